@@ -61,6 +61,18 @@ def gen_scenario(r, keys):
         # still decide first)
         if r.chance(0.6 if c == "client1" else 0.3):
             pl.append((c, r.choice([".*", r.choice(wallets), "Wallet.*|Vault"]), r.choice([["All"], ["Access account", "Create account"], ["~Sign", "All"]])))
+    # sometimes: patterns that differ ONLY in the letter case of a class escape (\\w / \\W, \\d / \\D, \\S / \\s) — opposite
+    # meanings under any case folding — in one client's table and across the two clients
+    if r.chance(0.25):
+        w = r.choice(wallets)
+        lo, up = r.choice([("\\w+", "\\W+"), ("Acc\\d+", "Acc\\D+"), ("\\S+", "\\s+"), ("[a-z]+\\d*", "[a-z]+\\D*")])
+        form = r.below(3)
+        if form == 0:
+            pl = [("client1", w + "/" + up, ["None"]), ("client1", w + "/" + lo, ["All"])] + pl
+        elif form == 1:
+            pl = [("client1", w + "/" + lo, ["Access account"]), ("client2", w + "/" + up, ["Access account"])] + pl
+        else:
+            pl = [("client2", w + "/" + up, ["Access account", "Create account"]), ("client2", w + "/" + lo, ["None"]), ("client1", w + "/" + lo, ["All"])] + pl
     cfg = lines + [l for l in hist.config_lines(accts, pl, [])]
     ops = []
 
